@@ -9,6 +9,7 @@ import (
 	"errors"
 	"fmt"
 	"io"
+	"log/slog"
 	"net/http"
 	"net/http/httptest"
 	"strings"
@@ -20,24 +21,68 @@ import (
 )
 
 // ngWrap is a server transport that advertises only a subset of protocol versions
-// (it implements ProtocolVersionSupporter on top of whatever the inner transport says).
+// (it implements ProtocolVersionSupporter on top of whatever the inner transport says): a user-defined
+// wrapper that DOES forward the inner transport's answer. delay > 0: answering takes that long (a
+// wrapper that consults something slow).
 type ngWrap struct {
 	inner Transport
 	mask  map[string]bool
+	delay time.Duration
 }
 
 func (w *ngWrap) Connect(ctx context.Context) (Connection, error) { return w.inner.Connect(ctx) }
 func (w *ngWrap) SupportsProtocolVersion(v string) bool {
+	if w.delay > 0 {
+		time.Sleep(w.delay)
+	}
 	if pvs, ok := w.inner.(ProtocolVersionSupporter); ok && !pvs.SupportsProtocolVersion(v) {
 		return false
 	}
 	return w.mask[v]
 }
 
-// ngSSE is SSEHandler's session handling with the per-session transport wrapped by ngWrap.
+// ngSlow is how long the slow user code of the `w` / `g` modes takes per call (real time: the HTTP
+// kinds run on real sockets).
+const ngSlow = 15 * time.Millisecond
+
+// ngStack builds the server's transport stack around t from the subset token:
+//
+//	none        t
+//	m<bits>     ngWrap{t}                          a forwarding user wrapper advertising a subset
+//	L           LoggingTransport{t}                the SDK's own wrapper
+//	Lm<bits>    LoggingTransport{ngWrap{t}}
+//	m<bits>L    ngWrap{LoggingTransport{t}}
+func ngStack(t Transport, subset string, delay time.Duration) Transport {
+	if subset == "none" {
+		return t
+	}
+	outerLog := strings.HasPrefix(subset, "L")
+	innerLog := !outerLog && strings.HasSuffix(subset, "L")
+	m := strings.TrimSuffix(strings.TrimPrefix(subset, "L"), "L")
+	if innerLog {
+		t = &LoggingTransport{Transport: t, Writer: io.Discard}
+	}
+	if m != "" {
+		t = &ngWrap{inner: t, mask: ngMask(m), delay: delay}
+	}
+	if outerLog {
+		t = &LoggingTransport{Transport: t, Writer: io.Discard}
+	}
+	return t
+}
+
+// ngSlowSink is a slog.Handler standing for a slow log sink: every record takes ngSlow.
+type ngSlowSink struct{}
+
+func (ngSlowSink) Enabled(context.Context, slog.Level) bool { return true }
+func (h ngSlowSink) WithAttrs([]slog.Attr) slog.Handler      { return h }
+func (h ngSlowSink) WithGroup(string) slog.Handler           { return h }
+func (ngSlowSink) Handle(context.Context, slog.Record) error { time.Sleep(ngSlow); return nil }
+
+// ngSSE is SSEHandler's session handling with the per-session transport wrapped by the stack.
 type ngSSE struct {
 	srv  *Server
-	mask map[string]bool
+	wrap func(Transport) Transport
 	mu   sync.Mutex
 	sess map[string]*SSEServerTransport
 	n    int
@@ -67,7 +112,7 @@ func (h *ngSSE) ServeHTTP(w http.ResponseWriter, req *http.Request) {
 	h.mu.Lock()
 	h.sess[sessionID] = tr
 	h.mu.Unlock()
-	ss, err := h.srv.Connect(req.Context(), &ngWrap{inner: tr, mask: h.mask}, nil)
+	ss, err := h.srv.Connect(req.Context(), h.wrap(tr), nil)
 	if err != nil {
 		http.Error(w, "connection failed", http.StatusInternalServerError)
 		return
@@ -79,12 +124,92 @@ func (h *ngSSE) ServeHTTP(w http.ResponseWriter, req *http.Request) {
 	}
 }
 
+// ngStateful is a hand-written stateful streamable HTTP handler (what a user writes who wants the
+// per-session StreamableServerTransport wrapped): one transport and one Server.Connect per session,
+// requests routed by Mcp-Session-Id.
+type ngStateful struct {
+	srv   *Server
+	wrap  func(Transport) Transport
+	json  bool
+	store EventStore
+	mu    sync.Mutex
+	sess  map[string]*ngStatefulSession
+	n     int
+}
+
+type ngStatefulSession struct {
+	t  *StreamableServerTransport
+	ss *ServerSession
+}
+
+func (h *ngStateful) ServeHTTP(w http.ResponseWriter, req *http.Request) {
+	if sid := req.Header.Get(sessionIDHeader); sid != "" {
+		h.mu.Lock()
+		s := h.sess[sid]
+		h.mu.Unlock()
+		if s == nil {
+			http.Error(w, "session not found", http.StatusNotFound)
+			return
+		}
+		if req.Method == http.MethodDelete {
+			s.ss.Close()
+			h.mu.Lock()
+			delete(h.sess, sid)
+			h.mu.Unlock()
+			w.WriteHeader(http.StatusNoContent)
+			return
+		}
+		s.t.ServeHTTP(w, req)
+		return
+	}
+	if req.Method != http.MethodPost {
+		http.Error(w, "Bad Request: session ID required", http.StatusBadRequest)
+		return
+	}
+	h.mu.Lock()
+	h.n++
+	sid := fmt.Sprintf("ng%d", h.n)
+	h.mu.Unlock()
+	t := &StreamableServerTransport{SessionID: sid, EventStore: h.store, jsonResponse: h.json}
+	ss, err := h.srv.Connect(context.WithoutCancel(req.Context()), h.wrap(t), nil)
+	if err != nil {
+		http.Error(w, "failed connection", http.StatusInternalServerError)
+		return
+	}
+	h.mu.Lock()
+	h.sess[sid] = &ngStatefulSession{t, ss}
+	h.mu.Unlock()
+	defer func() {
+		// as StreamableHTTPHandler: a session that the first request did not initialize is dropped
+		if ss.InitializeParams() == nil {
+			ss.Close()
+			h.mu.Lock()
+			delete(h.sess, sid)
+			h.mu.Unlock()
+		}
+	}()
+	t.ServeHTTP(w, req)
+}
+
+func (h *ngStateful) closeAll() {
+	h.mu.Lock()
+	defer h.mu.Unlock()
+	for _, s := range h.sess {
+		s.ss.Close()
+	}
+	h.sess = map[string]*ngStatefulSession{}
+}
+
 type ngCell struct {
 	req    string // "default" or s<hex>
 	kind   string // mem pipe sse stateful stateless statefulnoid (stateful, the server assigns no session IDs)
 	subset string // "none" or m<5 bits over supportedProtocolVersions>
 	json   bool
 	store  bool
+	// mode: "" | "w" the wrapper's SupportsProtocolVersion is slow | "g" the server logs to a slow sink;
+	// with either, Server.Connect runs while the client is already connecting (mem / pipe: in its own
+	// goroutine; SSE always does)
+	mode string
 }
 
 func (c ngCell) op() string {
@@ -94,11 +219,15 @@ func (c ngCell) op() string {
 		}
 		return "0"
 	}
-	return fmt.Sprintf("connect %s %s %s %s %s", c.req, c.kind, c.subset, b(c.json), b(c.store))
+	s := fmt.Sprintf("connect %s %s %s %s %s", c.req, c.kind, c.subset, b(c.json), b(c.store))
+	if c.mode != "" {
+		s += " " + c.mode
+	}
+	return s
 }
 
 func ngMask(subset string) map[string]bool {
-	if subset == "none" {
+	if subset == "none" || subset == "" {
 		return nil
 	}
 	m := map[string]bool{}
@@ -125,6 +254,99 @@ func ngErrClass(err error) string {
 	return "other"
 }
 
+// ngServerSide puts srv behind the cell's transport configuration and returns the client's transport.
+// endpoint(key, mk) yields the HTTP endpoint of one configuration (a case of the seq stream shares them
+// between its steps). after: what to run when the connection is over. wait: blocks until a concurrent
+// Server.Connect (modes w / g over mem / pipe) has returned.
+func ngServerSide(ctx context.Context, srv *Server, c ngCell, endpoint func(key string, mk func() http.Handler) *httptest.Server) (ct Transport, after []func(), wait func(), errObs string) {
+	var delay time.Duration
+	if c.mode == "w" {
+		delay = ngSlow
+	}
+	wrap := func(t Transport) Transport { return ngStack(t, c.subset, delay) }
+	wait = func() {}
+	// connect the server end: synchronously, or (slow modes) while the client is already talking
+	serve := func(t Transport, closers ...io.Closer) bool {
+		fin := func(ss *ServerSession) func() {
+			return func() {
+				if ss != nil {
+					ss.Close()
+				}
+				for _, cl := range closers {
+					cl.Close()
+				}
+			}
+		}
+		if c.mode == "" {
+			ss, err := srv.Connect(ctx, wrap(t), nil)
+			if err != nil {
+				return false
+			}
+			after = append(after, fin(ss))
+			return true
+		}
+		done := make(chan *ServerSession, 1)
+		go func() {
+			ss, _ := srv.Connect(ctx, wrap(t), nil)
+			done <- ss
+		}()
+		var once sync.Once
+		var ss *ServerSession
+		wait = func() { once.Do(func() { ss = <-done }) }
+		after = append(after, func() { wait(); fin(ss)() })
+		return true
+	}
+	switch c.kind {
+	case "mem":
+		a, b := NewInMemoryTransports()
+		if !serve(b) {
+			return nil, after, wait, "error server-connect"
+		}
+		ct = a
+	case "pipe":
+		r1, w1 := io.Pipe()
+		r2, w2 := io.Pipe()
+		if !serve(&IOTransport{Reader: r1, Writer: w2}, r1, r2, w1, w2) {
+			return nil, after, wait, "error server-connect"
+		}
+		ct = &IOTransport{Reader: r2, Writer: w1}
+	case "sse":
+		ts := endpoint("sse/"+c.subset+"/"+c.mode, func() http.Handler {
+			if c.subset == "none" {
+				return NewSSEHandler(func(*http.Request) *Server { return srv }, nil)
+			}
+			return &ngSSE{srv: srv, wrap: wrap, sess: map[string]*SSEServerTransport{}}
+		})
+		hc := &http.Client{Transport: &http.Transport{}}
+		after = append(after, hc.CloseIdleConnections)
+		ct = &SSEClientTransport{Endpoint: ts.URL, HTTPClient: hc}
+	case "stateful", "stateless", "statefulnoid":
+		ts := endpoint(fmt.Sprintf("%s/%s/%s/%v/%v", c.kind, c.subset, c.mode, c.json, c.store), func() http.Handler {
+			var store EventStore
+			if c.store {
+				store = NewMemoryEventStore(nil)
+			}
+			if c.subset != "none" && c.kind == "stateful" {
+				// a wrapped per-session transport needs a hand-written handler
+				return &ngStateful{srv: srv, wrap: wrap, json: c.json, store: store, sess: map[string]*ngStatefulSession{}}
+			}
+			opts := &StreamableHTTPOptions{Stateless: c.kind == "stateless", JSONResponse: c.json}
+			if c.store {
+				opts.EventStore = store
+			}
+			return NewStreamableHTTPHandler(func(*http.Request) *Server { return srv }, opts)
+		})
+		// a private connection pool: the shared default one may hand out a stale connection to a
+		// port that an earlier cell's test server used
+		hc := &http.Client{Transport: &http.Transport{}}
+		after = append(after, hc.CloseIdleConnections)
+		ct = &StreamableClientTransport{Endpoint: ts.URL, HTTPClient: hc}
+	default:
+		return nil, after, wait, "bad-op"
+	}
+	return ct, after, wait, ""
+}
+
 // ngRun executes one cell on the real code and returns the observation and tags.
 func ngRun(c ngCell) (obs string, tags []string) {
 	defer func() {
@@ -133,10 +355,13 @@ func ngRun(c ngCell) (obs string, tags []string) {
 			tags = append(tags, "panic")
 		}
 	}()
-	var sopts *ServerOptions
+	sopts := &ServerOptions{}
 	if c.kind == "statefulnoid" {
 		// a stateful endpoint whose server hands out no session IDs (the handler's "ephemeral session" branch)
-		sopts = &ServerOptions{GetSessionID: func() string { return "" }}
+		sopts.GetSessionID = func() string { return "" }
+	}
+	if c.mode == "g" {
+		sopts.Logger = slog.New(ngSlowSink{})
 	}
 	srv := NewServer(&Implementation{Name: "verif", Version: "1"}, sopts)
 	srv.AddTool(&Tool{Name: "echo", InputSchema: map[string]any{"type": "object"}},
@@ -145,99 +370,58 @@ func ngRun(c ngCell) (obs string, tags []string) {
 		})
 	ctx, cancel := context.WithTimeout(context.Background(), 20*time.Second)
 	defer cancel()
-	mask := ngMask(c.subset)
-	var ct Transport
 	var cleanup []func()
 	defer func() {
 		for i := len(cleanup) - 1; i >= 0; i-- {
 			cleanup[i]()
 		}
 	}()
-	wrap := func(t Transport) Transport {
-		if mask == nil {
-			return t
-		}
-		return &ngWrap{inner: t, mask: mask}
-	}
-	switch c.kind {
-	case "mem":
-		a, b := NewInMemoryTransports()
-		ss, err := srv.Connect(ctx, wrap(b), nil)
-		if err != nil {
-			return "error server-connect", []string{"server-connect-failed"}
-		}
-		cleanup = append(cleanup, func() { ss.Close() })
-		ct = a
-	case "pipe":
-		r1, w1 := io.Pipe()
-		r2, w2 := io.Pipe()
-		ss, err := srv.Connect(ctx, wrap(&IOTransport{Reader: r1, Writer: w2}), nil)
-		if err != nil {
-			return "error server-connect", []string{"server-connect-failed"}
-		}
-		cleanup = append(cleanup, func() { ss.Close(); r1.Close(); r2.Close(); w1.Close(); w2.Close() })
-		ct = &IOTransport{Reader: r2, Writer: w1}
-	case "sse":
-		var h http.Handler
-		if mask == nil {
-			h = NewSSEHandler(func(*http.Request) *Server { return srv }, nil)
-		} else {
-			h = &ngSSE{srv: srv, mask: mask, sess: map[string]*SSEServerTransport{}}
-		}
+	endpoint := func(_ string, mk func() http.Handler) *httptest.Server {
+		h := mk()
 		ts := httptest.NewServer(h)
-		cleanup = append(cleanup, func() { ts.CloseClientConnections(); ts.Close() })
-		hc := &http.Client{Transport: &http.Transport{}}
-		cleanup = append(cleanup, hc.CloseIdleConnections)
-		ct = &SSEClientTransport{Endpoint: ts.URL, HTTPClient: hc}
-	case "stateful", "stateless", "statefulnoid":
-		opts := &StreamableHTTPOptions{Stateless: c.kind == "stateless", JSONResponse: c.json}
-		if c.store {
-			opts.EventStore = NewMemoryEventStore(nil)
-		}
-		ts := httptest.NewServer(NewStreamableHTTPHandler(func(*http.Request) *Server { return srv }, opts))
-		cleanup = append(cleanup, func() { ts.CloseClientConnections(); ts.Close() })
-		// a private connection pool: the shared default one may hand out a stale connection to a
-		// port that an earlier cell's test server used
-		hc := &http.Client{Transport: &http.Transport{}}
-		cleanup = append(cleanup, hc.CloseIdleConnections)
-		ct = &StreamableClientTransport{Endpoint: ts.URL, HTTPClient: hc}
-	default:
-		return "bad-op", nil
+		cleanup = append(cleanup, func() {
+			if st, ok := h.(*ngStateful); ok {
+				st.closeAll()
+			}
+			ts.CloseClientConnections()
+			ts.Close()
+		})
+		return ts
 	}
-	client := NewClient(&Implementation{Name: "verif-client", Version: "1"}, nil)
-	var copts *ClientSessionOptions
-	if c.req != "default" {
-		copts = &ClientSessionOptions{ProtocolVersion: ngUnhex(c.req[1:])}
+	ct, after, _, errObs := ngServerSide(ctx, srv, c, endpoint)
+	for _, f := range after {
+		cleanup = append(cleanup, f)
 	}
-	cs, err := client.Connect(ctx, ct, copts)
-	if err != nil {
-		return "error", []string{"connect-error", "err-" + ngErrClass(err)}
+	if errObs == "bad-op" {
+		return errObs, nil
 	}
-	defer cs.Close()
-	ver := ""
-	if r := cs.InitializeResult(); r != nil {
-		ver = r.ProtocolVersion
+	if errObs != "" {
+		return errObs, []string{"server-connect-failed"}
 	}
-	list, call := "ok", "ok"
-	lr, err := cs.ListTools(ctx, nil)
-	if err != nil {
-		list = "err"
-	} else if len(lr.Tools) != 1 || lr.Tools[0].Name != "echo" {
-		list = "wrong"
+	obs, tags, cs := ngSession(ctx, NewClient(&Implementation{Name: "verif-client", Version: "1"}, nil), ngOpts(c.req), ct)
+	if cs != nil {
+		cs.Close()
 	}
-	cr, err := cs.CallTool(ctx, &CallToolParams{Name: "echo"})
-	if err != nil {
-		call = "err"
-	} else if len(cr.Content) != 1 {
-		call = "wrong"
-	} else if tc, ok := cr.Content[0].(*TextContent); !ok || tc.Text != "pong" {
-		call = "wrong"
+	if c.mode != "" {
+		tags = append(tags, "mode-"+c.mode)
 	}
-	return fmt.Sprintf("ok %s %s %s", hxs(ver), list, call), []string{"connected", "ver-" + ver}
+	return obs, tags
+}
+
+// ngOpts: the caller's options value for a requested-version token: `default` = nil options, `empty` =
+// an options value that leaves ProtocolVersion unset, s<hex> = an explicit version.
+func ngOpts(req string) *ClientSessionOptions {
+	switch {
+	case req == "default":
+		return nil
+	case req == "empty":
+		return &ClientSessionOptions{}
+	}
+	return &ClientSessionOptions{ProtocolVersion: ngUnhex(req[1:])}
 }
 
 func ngRequested() []string {
-	out := []string{"default"}
+	out := []string{"default", "empty"}
 	for _, v := range supportedProtocolVersions {
 		out = append(out, "s"+hxs(v))
 	}
@@ -265,6 +449,15 @@ func ngSubsets() []string {
 	return out
 }
 
+// ngWrapSubsets: the transport stacks with a LoggingTransport in them (see ngStack), over a handful of masks.
+func ngWrapSubsets() []string {
+	out := []string{"L"}
+	for _, m := range []string{"m11111", "m01111", "m10000", "m00100", "m11000", "m00000"} {
+		out = append(out, "L"+m, m+"L")
+	}
+	return out
+}
+
 func ngCells() []ngCell {
 	var cells []ngCell
 	for _, req := range ngRequested() {
@@ -285,15 +478,38 @@ func ngCells() []ngCell {
 				}
 			}
 		}
+		// the server's transport wrapped in the SDK's LoggingTransport, alone and combined with a
+		// forwarding user wrapper (either one outermost); stateful: through a hand-written handler, also
+		// with a plain forwarding wrapper
+		for _, s := range ngWrapSubsets() {
+			for _, kind := range []string{"mem", "pipe", "sse", "stateful"} {
+				cells = append(cells, ngCell{req: req, kind: kind, subset: s})
+			}
+		}
+		for _, s := range []string{"m11111", "m01111", "m10000", "m00100", "L"} {
+			cells = append(cells, ngCell{req: req, kind: "stateful", subset: s, json: true, store: true})
+		}
+		// Server.Connect still running while the client is already connecting: a user wrapper whose
+		// SupportsProtocolVersion is slow (w), a slow log sink (g)
+		for _, kind := range []string{"mem", "pipe", "sse"} {
+			for _, s := range []string{"m11111", "m01111", "m00100"} {
+				cells = append(cells, ngCell{req: req, kind: kind, subset: s, mode: "w"}, ngCell{req: req, kind: kind, subset: s, mode: "g"})
+			}
+			cells = append(cells, ngCell{req: req, kind: kind, subset: "none", mode: "g"})
+		}
 	}
 	return cells
 }
 
 func ngParse(toks []string) (ngCell, bool) {
-	if len(toks) != 6 || toks[0] != "connect" {
+	if (len(toks) != 6 && len(toks) != 7) || toks[0] != "connect" {
 		return ngCell{}, false
 	}
-	return ngCell{req: toks[1], kind: toks[2], subset: toks[3], json: toks[4] == "1", store: toks[5] == "1"}, true
+	c := ngCell{req: toks[1], kind: toks[2], subset: toks[3], json: toks[4] == "1", store: toks[5] == "1"}
+	if len(toks) == 7 {
+		c.mode = toks[6]
+	}
+	return c, true
 }
 
 func TestVerifNegotiate(t *testing.T) {
@@ -321,9 +537,7 @@ func TestVerifNegotiate(t *testing.T) {
 		tags := r.tags
 		if c, ok := ngParse(strings.Fields(r.op)); ok {
 			tags = append(tags, "kind-"+c.kind, "req-"+ngReqClass(c.req))
-			if c.subset != "none" {
-				tags = append(tags, "subset")
-			}
+			tags = append(tags, ngSubsetTags(c.subset)...)
 		}
 		out.line(cs, r.op, r.obs, tags...)
 	}
@@ -334,9 +548,24 @@ func ngUnhex(s string) string {
 	return string(b)
 }
 
+// ngSubsetTags: which wrappers the server's transport stack has.
+func ngSubsetTags(subset string) []string {
+	var tags []string
+	if strings.Contains(subset, "m") {
+		tags = append(tags, "subset")
+	}
+	switch {
+	case strings.HasPrefix(subset, "L"):
+		tags = append(tags, "logging-outermost")
+	case strings.HasSuffix(subset, "L"):
+		tags = append(tags, "logging-inside-wrapper")
+	}
+	return tags
+}
+
 func ngReqClass(req string) string {
-	if req == "default" {
-		return "default"
+	if req == "default" || req == "empty" {
+		return req
 	}
 	v := ngUnhex(req[1:])
 	for _, s := range supportedProtocolVersions {
